@@ -19,6 +19,7 @@ import TracingModel.Core.RegRaceDriver
 import TracingModel.Core.WritersDriver
 import TracingModel.Core.JsonDriver
 import TracingModel.Core.NonBlockingDriver
+import TracingModel.Core.RollingDriver
 
 open TM TM.Wire
 
@@ -68,6 +69,7 @@ def dispatch (prop mode : String) : Option (List String → String) :=
   | "C09", "modelfilt" => some FilteringDriver.model
   | "C09", "specfilt" => some FilteringDriver.spec
   | "C08", "model" => some DirectiveDriver.model2
+  | "C16", "model" => some RollingDriver.model
   | "C15", "model" => some NonBlockingDriver.model
   | "C14", "model" => some JsonDriver.model
   | "C13", "model" => some WritersDriver.model
